@@ -319,7 +319,7 @@ Proof.
   destruct g; try (inversion H; subst; lia).
   destruct (fa_fill ffuel r1) as [r2 fr] eqn:Ef.
   destruct (fa_fill_seqpos _ _ _ _ Ef) as (E2 & _).
-  destruct fr; try (inversion H; subst; cbn [seqpos set_st]; rewrite E2; lia).
+  destruct fr; try (inversion H; subst; cbn [seqpos set_st set_buf]; rewrite E2; lia).
   destruct (fa_search r2) as [r3 sr] eqn:Es.
   pose proof (fa_search_seqpos_mono _ _ _ Es) as E3. rewrite E2 in E3.
   destruct sr as [[|]|x]; try (inversion H; subst; lia).
@@ -616,7 +616,7 @@ Fixpoint fa_resume_ga (fuel ffuel : nat) (mk_room : bool) (r : fa) : fa * rres_b
       | GOk =>
           let '(r2, fr) := fa_fill ffuel r1 in
           match fr with
-          | FillErr k => (set_st r2 FFinished, RsErr (FaIo k), gs)
+          | FillErr k => (set_st (set_buf r2 []) FFinished, RsErr (FaIo k), gs)
           | FillFuel => (r2, RsFuel, gs)
           | FillOk _ =>
               let '(r3, sr) := fa_search r2 in
